@@ -69,8 +69,10 @@ _c('C19', 'Proved: each state-changing primitive files exactly one event carryin
           'pickup / cancel / add events vs the waiting map: C03_ledger_over_histories. PARTIAL: station-load events, summary counts and the file round-trip decided by the log engine + monitors.',
    'Coq proof: event/state lemmas + event-log accounting over operation histories (macro frame theorem); correspondence on event multisets; monitors; event.log engine')
 _c('C20', 'Proved: regenerated time_in_range is start-inclusive/end-exclusive with wrap-around and empty when start=end; time of day periodic; a driver update sets availability to the schedule verdict at the '
-          'step start and files an event exactly on a flip. PARTIAL: dispatcher never assigning off-shift drivers decided by the dispatcher engine.',
-   'Coq proof over translated time_in_range + driver-update lemma; correspondence; shift monitor')
+          'step start and files an event exactly on a flip. Proved for whole steps and runs, instruction lists of any controller (C20_step_follows_schedule, C20_run_follows_schedule): after the driver updates of a step '
+          'every human driver is available exactly when the step\'s start time lies in the shift, and no other operation of the step changes a driver state (C20_only_driver_updates_change_drivers, macro frame theorem). '
+          'PARTIAL: dispatcher never assigning off-shift drivers decided by the dispatcher engine.',
+   'Coq proof: translated time_in_range + driver-update lemma + fold over all vehicles + driver frame (macro frame theorem) over whole steps and runs; correspondence; shift monitor; real-pipeline engine')
 
 _c('C06', 'Proved for all link lengths, speeds, step lengths and positions, over kernels regenerated from linktraversal.py/routetraversal.py/units.py/h3_ops.py: one link is skipped (degenerate), driven completely '
           'consuming exactly its whole-second travel time, or split at ONE point on the link into start->p / p->end; over a whole route never more than the step time is used, the odometer increment is the length '
